@@ -23,13 +23,22 @@ structure Src where
 
 /-- What `peek_last` / `size_hint` promise. -/
 def Src.HintOk (s : Src) : Prop :=
-  (∀ r, s.last = some r → ∀ c ∈ s.items, c.2 ≤ r.2) ∧
+  (∀ r, s.last = some r → r.1 < r.2 ∧ ∀ c ∈ s.items, c.2 ≤ r.2) ∧
   s.lo ≤ s.items.length ∧ (∀ n, s.hi = some n → s.items.length ≤ n)
 
 def Src.hintOkB (s : Src) : Bool :=
-  (match s.last with | none => true | some r => s.items.all fun c => decide (c.2 ≤ r.2)) &&
+  (match s.last with | none => true | some r => decide (r.1 < r.2) && s.items.all fun c => decide (c.2 ≤ r.2)) &&
   decide (s.lo ≤ s.items.length) &&
   (match s.hi with | none => true | some n => decide (s.items.length ≤ n))
+
+/-- The hints a source advertises after 1, 2, … `next()` are consistent with what then remains. -/
+def laterOk : List Rng → List (Nat × Option Nat) → Prop
+  | _, [] => True
+  | items, h :: t =>
+    h.1 ≤ items.tail.length ∧ (∀ n, h.2 = some n → items.tail.length ≤ n) ∧ laterOk items.tail t
+
+/-- Hints consistent now and after every further `next()` the model knows about. -/
+def Src.HintOkAll (s : Src) : Prop := s.HintOk ∧ laterOk s.items s.later
 
 /-- The source after `next()` was called once (hints: the ones the source then advertises;
     `(0, None)` – no information – when the source gave none). -/
@@ -62,6 +71,12 @@ def andItems (l r : Src) : List Rng :=
 def andSizeHi (l r : Src) : Option Nat :=
   match l.hi, r.hi with
   | some n1, some n2 => some (1 + n1 + n2)
+  | _, _ => none
+
+/-- `size_hint().1` of `or` / `xor` / `minus` (repaired: `2 + n1 + n2`). -/
+def binSizeHi (l r : Src) : Option Nat :=
+  match l.hi, r.hi with
+  | some n1, some n2 => some (2 + n1 + n2)
   | _, _ => none
 
 /-- `and(l, r)`. NB `size_hint` is evaluated on the operands *after* the initial `next()`. -/
@@ -101,7 +116,7 @@ def orSrc (l r : Src) : Src :=
     hi := if orDisjoint l r then
             (match l.afterNext.hi, r.afterNext.hi with
              | some a, some b => some (one r + b + one l + a) | _, _ => none)
-          else andSizeHi l.afterNext r.afterNext }
+          else binSizeHi l.afterNext r.afterNext }
 
 /-! ### xor -/
 
@@ -130,7 +145,7 @@ termination_by l r => l.length + r.length
 
 def xorSrc (l r : Src) : Src :=
   { depth := max l.depth r.depth, items := xorLoop l.items r.items, last := orLast l r, lo := 0,
-    hi := andSizeHi l.afterNext r.afterNext }
+    hi := binSizeHi l.afterNext r.afterNext }
 
 /-! ### minus -/
 
@@ -162,7 +177,7 @@ def minusItems (l r : Src) : List Rng :=
 
 def minusSrc (l r : Src) : Src :=
   { depth := max l.depth r.depth, items := minusItems l r, last := none, lo := 0,
-    hi := andSizeHi l.afterNext r.afterNext }
+    hi := binSizeHi l.afterNext r.afterNext }
 
 /-! ### not -/
 
@@ -179,13 +194,16 @@ def notCurrSome (ub : Nat) : List Rng → Bool
   | [] => true
   | r :: _ => !(r.1 = 0 && r.2 = ub)
 
+/-- `NotRangeIter` with the repaired `size_hint`: nothing if `curr` is `None`, else `curr` + one
+    range per remaining input range + possibly a last range up to `n_cells_max`. -/
 def notSrc (ub : Nat) (s : Src) : Src :=
   let k := notConsumed ub s.items
-  let lo' := (s.afterNexts k).lo
-  let hi' := (s.afterNexts k).hi
-  let cur := if notCurrSome ub s.items then 0 else 1
-  { depth := s.depth, items := notItems ub s, last := none,
-    lo := lo' + cur, hi := hi'.map (· + cur + 1) }
+  let rem := s.afterNexts k
+  if notCurrSome ub s.items then
+    { depth := s.depth, items := notItems ub s, last := none,
+      lo := rem.lo + 1, hi := rem.hi.map (· + 2) }
+  else
+    { depth := s.depth, items := notItems ub s, last := none, lo := 0, hi := some 0 }
 
 /-! ### degrade -/
 
@@ -208,5 +226,20 @@ def degradeSrc (sh newDepth : Nat) (s : Src) : Src :=
     { depth := s.depth,
       items := (match s.items with | [] => [] | r :: t => degradeFrom 0 r t),
       last := none, lo := 0, hi := none }
+
+/-! ### check / convert -/
+
+/-- `CheckedIterator` (repaired `size_hint`): same stream, `peek_last` forwarded, one element is
+    held in `curr`. -/
+def checkSrc (s : Src) : Src :=
+  if s.items.isEmpty then { s with lo := 0, hi := some 0, later := [] }
+  else { s with lo := s.afterNext.lo + 1, hi := s.afterNext.hi.map (· + 1), later := [] }
+
+/-- `ConvertIterator` from a `w`-bit to a wider `w'`-bit index type: every bound is shifted left by
+    `w' - w` bits; depth `min(depth, MAX_DEPTH')`; hints forwarded (scaled `peek_last`). -/
+def convertSrc (sh maxDepth' : Nat) (s : Src) : Src :=
+  { s with depth := min s.depth maxDepth',
+           items := s.items.map fun r => (r.1 <<< sh, r.2 <<< sh),
+           last := s.last.map fun r => (r.1 <<< sh, r.2 <<< sh) }
 
 end Moc
